@@ -25,13 +25,17 @@ RULE = (
     'sees no writer during the call does not compute. One case in five spreads the callers over TWO keys of one cache '
     'directory: no call fails, every returned value was computed for the caller\'s own key, at quiescence each entry is '
     'a complete value computed for its key and no temporary file is left. Non-trivial = two callers overlap and at '
-    'least one of them wrote.'
+    'least one of them wrote. Additionally REAL PROCESSES (2-4 forked interpreters, 1-6 operations each, real '
+    'flock, values up to ~100 KB, the OS owns the schedule): the safety clauses only - no call raises, every returned '
+    'value is a complete self-describing value, the final entry is complete.'
 )
 ASSUMPTIONS = [
     'the schedule is controlled between threads of one process; every FileLock object opens its own file description, '
     'so flock excludes threads exactly as it excludes processes',
     'reads and single write chunks are atomic; torn states arise between chunks and between open(w) and the first chunk',
     'a scheduler safety timer firing yields "inconclusive", never a violation',
+    'the process races are uncontrolled (not replayable step by step); they only add real inter-process flock to what '
+    'the controlled thread schedules cover',
 ]
 
 OPS = ['get', 'goc', 'force']
@@ -382,9 +386,128 @@ def dfs(config, rec, limit):
     return n, complete
 
 
+# ---- real processes (uncontrolled schedule, safety oracle only) --------------------------------------------------
+
+def _selfcheck(ctype, v):
+    """Is v a COMPLETE value some computer produced?  Values carry their own size, so a torn or stitched value shows."""
+    if ctype == 'json':
+        return isinstance(v, dict) and set(v) == {'tag', 'n', 'pad'} and v['pad'] == 'x' * v['n']
+    import numpy as np
+    return isinstance(v, np.ndarray) and v.ndim == 2 and v.shape[0] >= 1 and bool((v == float(v.shape[0])).all())
+
+
+def _proc_value(ctype, tag, n):
+    if ctype == 'json':
+        return {'tag': tag, 'n': n, 'pad': 'x' * n}
+    import numpy as np
+    return np.full((n, 3), float(n), dtype='float64')
+
+
+def _proc_worker(ctype, directory, ops, wid):
+    """Child process: performs its operations on the shared key with the REAL FileLock; returns what it saw."""
+    out = []
+    from taskchain import cache as tc
+    hyp.silence_library_logging()
+    c = {'json': tc.JsonCache, 'numpy': tc.NumpyArrayCache}[ctype](directory)
+    for k, (op, n) in enumerate(ops):
+        tag = f'p{wid}-{k}'
+        try:
+            if op == 'get':
+                r = c.get('the-key')
+            else:
+                r = c.get_or_compute('the-key', lambda: _proc_value(ctype, tag, n), force=(op == 'force'))
+            if r is tc.NO_VALUE:
+                out.append([op, 'NO_VALUE'])
+            else:
+                out.append([op, 'ok' if _selfcheck(ctype, r) else 'BROKEN:' + repr(r)[:200]])
+        except BaseException as e:  # noqa
+            out.append([op, 'RAISED:' + repr(e)[:300]])
+    return out
+
+
+def eval_processes(case, rec):
+    """2-4 forked processes hammer one key with real flock; the OS owns the schedule.  Safety clauses only."""
+    import json as _json
+    import os as _os
+    import select
+    from taskchain import cache as tc
+    tmp = hyp.scratch_dir('tcv-c15p-')
+    try:
+        (tmp / 'c').mkdir()
+        start_r, start_w = _os.pipe()      # closed by the parent when every child exists: a common starting gun
+        kids = []
+        for wid, ops in enumerate(case['workers']):
+            r, w = _os.pipe()
+            pid = _os.fork()
+            if pid == 0:
+                code = 0
+                try:
+                    _os.close(r)
+                    _os.close(start_w)
+                    _os.read(start_r, 1)
+                    out = _proc_worker(case['ctype'], str(tmp / 'c'), ops, wid)
+                    _os.write(w, _json.dumps(out).encode())
+                except BaseException:  # noqa
+                    code = 3
+                finally:
+                    _os._exit(code)
+            _os.close(w)
+            kids.append((pid, r))
+        _os.close(start_r)
+        _os.close(start_w)
+        results = []
+        for pid, r in kids:
+            buf = b''
+            while True:
+                ready, _, _ = select.select([r], [], [], 120)
+                if not ready:
+                    for q, _ in kids:
+                        try:
+                            _os.kill(q, 9)
+                        except OSError:
+                            pass
+                    raise hyp.Inconclusive('a cache process did not answer within 120 s')
+                chunk = _os.read(r, 65536)
+                if not chunk:
+                    break
+                buf += chunk
+            _os.close(r)
+            _os.waitpid(pid, 0)
+            if not buf:
+                raise hyp.Inconclusive('a cache process died without reporting')
+            results.append(_json.loads(buf))
+        info = {'case': case, 'results': results}
+        for wid, res in enumerate(results):
+            for op, r in res:
+                if r.startswith('RAISED'):
+                    raise Violation('call-raised', dict(info, process=wid, op=op, error=r))
+                if r.startswith('BROKEN'):
+                    raise Violation('returned-value-no-computation-produced', dict(info, process=wid, op=op, got=r))
+                if r == 'NO_VALUE' and op != 'get':
+                    raise Violation('get_or_compute-returned-NO_VALUE', dict(info, process=wid))
+        wrote = any(op != 'get' for ops in case['workers'] for op, _ in ops)
+        final = {'json': tc.JsonCache, 'numpy': tc.NumpyArrayCache}[case['ctype']](tmp / 'c').get('the-key')
+        if wrote and (final is tc.NO_VALUE or not _selfcheck(case['ctype'], final)):
+            raise Violation('entry-at-quiescence-is-not-the-last-complete-write', dict(info, got=repr(final)[:200]))
+        rec.case(case, nontrivial=wrote and len(case['workers']) >= 2,
+                 classes=['processes', f'processes:n={len(case["workers"])}', 'type:' + case['ctype']],
+                 sample={'case': case, 'results': results})
+    finally:
+        hyp.drop_scratch(tmp)
+
+
+@st.composite
+def process_cases(draw):
+    n = draw(st.integers(2, 4))
+    op = st.tuples(st.sampled_from(['goc', 'goc', 'force', 'force', 'get']), st.integers(1, 4000)).map(list)
+    return {'processes': True, 'ctype': draw(st.sampled_from(['json', 'numpy'])),
+            'workers': [draw(st.lists(op, min_size=1, max_size=6)) for _ in range(n)]}
+
+
 def plan(tier):
     q = tier == 'quick'
     shards = [{'kind': 'random', 'examples': 900 if q else 12000} for _ in range(6 if q else 8)]
+    shards += [{'kind': 'processes', 'examples': 60 if q else 1000} for _ in range(1 if q else 4)]
     configs = []
     for ctype in (['json'] if q else ['json', 'numpy', 'frame']):
         for populated in (False, True):
@@ -400,7 +523,11 @@ def plan(tier):
 
 def run_shard(shard, seed, tier, rec):
     hyp.silence_library_logging()
-    if shard['kind'] == 'random':
+    if shard['kind'] == 'processes':
+        # the OS schedules: a failure may not reproduce, so nothing is shrunk (the first failing case is the replay)
+        hyp.run_given(rec, process_cases(), lambda c: eval_processes(c, rec), seed, shard['examples'], kind='processes',
+                      shrink=False)
+    elif shard['kind'] == 'random':
         hyp.run_given(rec, cases(), lambda c: eval_case(c, rec), seed, shard['examples'], kind='schedule',
                       shrink_budget=150)
     else:
@@ -411,4 +538,8 @@ def run_shard(shard, seed, tier, rec):
 
 
 def replay(doc, rec):
+    if doc['case'].get('processes'):
+        for _ in range(20):   # uncontrolled schedule: try the configuration a number of times
+            eval_processes(doc['case'], rec)
+        return
     eval_case(doc['case'], rec)
